@@ -11,7 +11,13 @@ import CnlProofs.CIntLemmas
 * the numeral read back by the independent reader (`intText_value`);
 * termination of the repaired `descale` (`descale_terminates`, measure `ie·(B+2) + headroom`), its loop
   invariant (`descale_ok`), the text lengths of both `fill`s (`sciText_length`, `fixedText_length`), the scaled
-  routine (`toCharsPositive_contract`, `scaledToChars_contract`, `scaledToChars_stays_inside`).
+  routine (`toCharsPositive_contract`, `scaledToChars_contract`, `scaledToChars_stays_inside`);
+* C14, fractional half: the value invariant of `descale` (`descaleNeg_value`, `descalePos_value`, `descale_value`,
+  `descale_lossy_le`, `descale_lossy_le_succ`, `descale_lossless_binary`, `descale_lossless_small`); the digit strings read back
+  (`natDigitsF_take_value`, `spanDigits_append`, `expValue_intText`, `unsignedDecimal_dot/_nodot`); both layouts
+  denote the significand cut to the digits kept (`sciText_denotes`, `fixedText_denotes`, `Kept`,
+  `toCharsPositive_denotes`, `choose_keeps_all`); the oracle's comparison (`within_intro`, `kept_within`,
+  `kept_exactly`); the composition `scaledToChars_denotes`.
 -/
 namespace Cnl.Charconv
 open Cnl Cnl.Spec
@@ -1374,7 +1380,8 @@ theorem descaleNeg_value (S : IntTy) (hs : S.signed = true) (h8 : 8 ≤ S.bits) 
       ∃ m j : Nat, d.exp = x - m ∧ d.lossy = k + j ∧
         d.sig.natAbs * R ^ ie ≤ sig.natAbs * 10 ^ m ∧
         sig.natAbs * 10 ^ m * S.max.toNat ≤
-          d.sig.natAbs * R ^ ie * S.max.toNat + sig.natAbs * 10 ^ m * (j * (10 * (R - 1))) := by
+          d.sig.natAbs * R ^ ie * S.max.toNat + sig.natAbs * 10 ^ m * (j * (10 * (R - 1))) ∧
+        j ≤ ie := by
   have hM := max_ge_127 S hs h8
   obtain ⟨hl0, hm0⟩ := sigOK_bounds S hs
   intro fuel
@@ -1386,16 +1393,16 @@ theorem descaleNeg_value (S : IntTy) (hs : S.signed = true) (h8 : 8 ≤ S.bits) 
     | zero =>
       simp only [descaleNeg] at h
       cases h
-      exact ⟨0, 0, by simp, by simp, by simp, by simp⟩
+      exact ⟨0, 0, by simp, by simp, by simp, by simp, Nat.le_refl _⟩
     | succ ie =>
       by_cases hc : sig.tmod R ≠ 0 ∧ oobSig S neg sig = false
       · obtain ⟨hin, hok'⟩ := step_mul10 S hs neg sig hok hc.2
         simp only [descaleNeg, hc, and_self, if_true, ne_eq, not_false_eq_true, mulS_ok (by omega) hin] at h
-        obtain ⟨m, j, e1, e2, e3, e4⟩ := ih _ _ _ _ _ hok' h
+        obtain ⟨m, j, e1, e2, e3, e4, e5⟩ := ih _ _ _ _ _ hok' h
         have hn : (sig * ((10 : Nat) : Int)).natAbs = sig.natAbs * 10 := by
           rw [Int.natAbs_mul]; rfl
         rw [hn] at e3 e4
-        refine ⟨m + 1, j, by omega, e2, ?_, ?_⟩
+        refine ⟨m + 1, j, by omega, e2, ?_, ?_, e5⟩
         · rw [Nat.pow_succ]; grind
         · rw [Nat.pow_succ]; grind
       · simp only [descaleNeg, hc, if_false] at h
@@ -1411,13 +1418,13 @@ theorem descaleNeg_value (S : IntTy) (hs : S.signed = true) (h8 : 8 ≤ S.bits) 
           · exact Or.inl ht
           · right; have := oob_big S hM neg sig hok ho; omega
         have hok' := step_div S hl0 hm0 neg sig R hR2 hok hbig
-        obtain ⟨m, j, e1, e2, e3, e4⟩ := ih _ _ _ _ _ hok' h
+        obtain ⟨m, j, e1, e2, e3, e4, e5⟩ := ih _ _ _ _ _ hok' h
         have hsm := lossy_rem_small S neg sig R (by omega) hok hor
         have hsplit := natAbs_split sig R
         obtain ⟨g1, g2⟩ := div_step_arith R (sig.tdiv R).natAbs (sig.tmod R).natAbs (10 ^ m) S.max.toNat
           d.sig.natAbs (R ^ ie) j (10 * (R - 1)) e3 e4 hsm
         rw [← hsplit] at g1 g2
-        refine ⟨m, j + (if (sig.tmod R).natAbs = 0 then 0 else 1), e1, ?_, ?_, ?_⟩
+        refine ⟨m, j + (if (sig.tmod R).natAbs = 0 then 0 else 1), e1, ?_, ?_, ?_, by split <;> omega⟩
         · rw [e2]
           by_cases ht : sig.tmod R = 0
           · have h0 : (sig.tmod R).natAbs = 0 := by omega
@@ -1524,7 +1531,7 @@ theorem descale_value (S : IntTy) (hs : S.signed = true) (h8 : 8 ≤ S.bits) (in
     by_cases hn : input < 0 <;> simp [hn]; omega
   by_cases hn : e < 0
   · simp only [hn, if_true] at hd
-    obtain ⟨m, j, e1, e2, e3, e4⟩ := descaleNeg_value S hs h8 _ R hR2 hR _ _ _ _ _ d hok hd
+    obtain ⟨m, j, e1, e2, e3, e4, _⟩ := descaleNeg_value S hs h8 _ R hR2 hR _ _ _ _ _ d hok hd
     have hx1 : d.exp.toNat = 0 := by omega
     have hx2 : (-d.exp).toNat = m := by omega
     have hge : ¬ e ≥ 0 := by omega
@@ -1542,6 +1549,119 @@ theorem descale_value (S : IntTy) (hs : S.signed = true) (h8 : 8 ≤ S.bits) (in
     simp only [exactFrac, hge, if_true, hx1, hx2, lossUnit, hn, if_false, hie, hj, Nat.pow_zero, Nat.mul_one]
     exact ⟨e3, e4⟩
 
+
+/-- for a negative exponent at most `|e|` divisions happen at all, so at most `|e|` are lossy -/
+theorem descale_lossy_le (S : IntTy) (hs : S.signed = true) (h8 : 8 ≤ S.bits) (input e : Int) (R : Nat)
+    (hR2 : 2 ≤ R) (hR : R ≤ 10) (hr : S.InRange input) (h0 : input ≠ 0) (he : e < 0) (d : Desc)
+    (hd : descale S input e R = .ok d) : d.lossy ≤ e.natAbs := by
+  unfold descale at hd
+  simp only [h0, if_false] at hd
+  rw [IntTy.wrap_id (by omega) hr] at hd
+  have hok : SigOK S (decide (input < 0)) input := by
+    refine ⟨hr.1, hr.2, ?_⟩
+    by_cases hn : input < 0 <;> simp [hn]; omega
+  simp only [he, if_true] at hd
+  obtain ⟨m, j, _, e2, _, _, e5⟩ := descaleNeg_value S hs h8 _ R hR2 hR _ _ _ _ _ d hok hd
+  omega
+
+theorem two_pow_mod_five (n : Nat) : ((2 : Int) ^ n) % 5 ≠ 0 := by
+  induction n with
+  | zero => decide
+  | succ k ih => rw [Int.pow_succ]; omega
+
+/-- after a division by ten the significand is back inside the headroom -/
+theorem not_oob_after_div (S : IntTy) (hs : S.signed = true) (neg : Bool) (sig : Int) (h : SigOK S neg sig) :
+    oobSig S neg (sig.tdiv 10) = false := by
+  obtain ⟨h1, h2, h3⟩ := h
+  have hl := lowest_signed S hs
+  have hp := two_pow_mod_five (S.bits - 1)
+  have hmax : S.max = 2 ^ (S.bits - 1) - 1 := by simp only [IntTy.max, hs, if_true]
+  unfold oobSig
+  cases neg with
+  | true =>
+    simp only [if_true, decide_eq_false_iff_not] at h3 ⊢
+    have e1 : sig.tdiv 10 = -((-sig).tdiv 10) := by rw [Int.neg_tdiv]; omega
+    have e2 : (-sig).tdiv 10 = (-sig) / 10 := Int.tdiv_eq_ediv_of_nonneg (by omega)
+    rw [e1, e2]
+    generalize (2 : Int) ^ (S.bits - 1) = P at *
+    omega
+  | false =>
+    simp at h3 ⊢
+    have e2 : sig.tdiv 10 = sig / 10 := Int.tdiv_eq_ediv_of_nonneg (by omega)
+    rw [e2]
+    omega
+
+/-- a lossy division needs the significand out of headroom, and only a multiplication by the input radix takes it
+there: at most one lossy division per unit of the input exponent, plus one at the start -/
+theorem descalePos_lossy_le (S : IntTy) (hs : S.signed = true) (h8 : 8 ≤ S.bits) (neg : Bool) (R : Nat)
+    (hR1 : 1 ≤ R) (hR : R ≤ 10) :
+    ∀ fuel sig x ie k d, SigOK S neg sig → descalePos S neg R fuel sig x ie k = .ok d →
+      d.lossy ≤ k + ie + (if oobSig S neg sig = true then 1 else 0) := by
+  have hM := max_ge_127 S hs h8
+  obtain ⟨hl0, hm0⟩ := sigOK_bounds S hs
+  intro fuel
+  induction fuel with
+  | zero => intro sig x ie k d _ h; simp [descalePos] at h
+  | succ n ih =>
+    intro sig x ie k d hok h
+    by_cases h1 : ie = 0 ∧ sig.tmod 10 ≠ 0
+    · simp only [descalePos, h1, and_self, if_true, ne_eq, not_false_eq_true] at h
+      cases h; simp only; omega
+    · by_cases h2 : sig.tmod 10 = 0 ∨ oobSig S neg sig = true
+      · simp only [descalePos, h1, h2, if_false, if_true] at h
+        have hbig : sig.tmod ((10 : Nat) : Int) = 0 ∨ 10 ≤ sig.natAbs := by
+          rcases h2 with h2 | h2
+          · exact Or.inl h2
+          · right; have := oob_big S hM neg sig hok h2; omega
+        have hok' : SigOK S neg (sig.tdiv 10) := step_div S hl0 hm0 neg sig 10 (by omega) hok hbig
+        have := ih _ _ _ _ d hok' h
+        rw [not_oob_after_div S hs neg sig hok] at this
+        by_cases ht : sig.tmod 10 = 0
+        · rw [if_neg (by omega)] at this
+          simp only [Bool.false_eq_true, if_false] at this
+          omega
+        · have ho : oobSig S neg sig = true := by
+            rcases h2 with h2 | h2
+            · exact absurd h2 ht
+            · exact h2
+          rw [if_pos ht] at this
+          rw [ho]
+          simp only [Bool.false_eq_true, if_false, if_true] at this ⊢
+          omega
+      · simp only [descalePos, h1, h2, if_false] at h
+        have htm : sig.tmod 10 ≠ 0 := fun h0 => h2 (Or.inl h0)
+        have hie : ie ≠ 0 := fun h0 => h1 ⟨h0, htm⟩
+        have ho : oobSig S neg sig = false := by
+          cases hoo : oobSig S neg sig with
+          | false => rfl
+          | true => exact absurd (Or.inr hoo) h2
+        obtain ⟨hin, hok'⟩ := step_mulR S hs neg sig R hR1 hR hok ho
+        simp only [mulS_ok (by omega) hin] at h
+        cases ie with
+        | zero => exact absurd rfl hie
+        | succ i =>
+          simp only [Nat.add_sub_cancel] at h
+          have := ih _ _ _ _ d hok' h
+          have hle : (if oobSig S neg (sig * (R : Int)) = true then 1 else 0) ≤ 1 := by split <;> omega
+          omega
+
+/-- the number of lossy divisions is bounded by the input exponent: `|e|` for negative, `e + 1` for non-negative -/
+theorem descale_lossy_le_succ (S : IntTy) (hs : S.signed = true) (h8 : 8 ≤ S.bits) (input e : Int) (R : Nat)
+    (hR2 : 2 ≤ R) (hR : R ≤ 10) (hr : S.InRange input) (h0 : input ≠ 0) (d : Desc)
+    (hd : descale S input e R = .ok d) : d.lossy ≤ e.natAbs + 1 := by
+  by_cases he : e < 0
+  · have := descale_lossy_le S hs h8 input e R hR2 hR hr h0 he d hd
+    omega
+  · unfold descale at hd
+    simp only [h0, if_false] at hd
+    rw [IntTy.wrap_id (by omega) hr] at hd
+    have hok : SigOK S (decide (input < 0)) input := by
+      refine ⟨hr.1, hr.2, ?_⟩
+      by_cases hn : input < 0 <;> simp [hn]; omega
+    simp only [he, if_false] at hd
+    have := descalePos_lossy_le S hs h8 _ R (by omega) hR _ _ _ _ _ d hok hd
+    have hle : (if oobSig S (decide (input < 0)) input = true then 1 else 0) ≤ 1 := by split <;> omega
+    omega
 
 /-! ### reading the digit strings back -/
 
@@ -2133,5 +2253,279 @@ theorem decimalValue_pos (t : List Char) (m : Nat) (e : Int) (h : unsignedDecima
   split
   · rw [unsignedDecimal_minus] at h; cases h
   · simp [h]
+
+/-! ### composition: the text of `scaled_integer` denotes the value -/
+
+theorem exactFrac_den_pos (a R : Nat) (e : Int) (hR : 0 < R) : 0 < (exactFrac a R e).2 := by
+  unfold exactFrac
+  split
+  · exact Nat.one_pos
+  · exact Nat.pow_pos hR
+
+/-- what a positive-routine result says about the text, given the characters `pre` already written -/
+theorem scaled_denotes_core (first : Nat) (pre : List Char) (b : Buf) (r : TCR) (sig : Nat) (h0 : 0 < sig) (x : Int)
+    (hf : first ≤ b.len) (hpre : b.cells.take first = pre.map some) (hl : pre.length = first)
+    (hrun : toCharsPositive b first (natDigits 10 sig) x = .ok r) (hok : r.ok = true) :
+    ∃ (t : List Char) (m : Nat) (e ns : Int), r.text = pre ++ t ∧ unsignedDecimal t = some (m, e) ∧
+      Kept sig x (natDigits 10 sig).length ns m e ∧
+      (FullFits (infoOf b.len first (natDigits 10 sig).length x) → ns = (natDigits 10 sig).length) := by
+  rcases toCharsPositive_denotes b first sig h0 x hf with h | ⟨t, m, e, ns, _, _, h, hu, hK, hF⟩
+  · rw [h] at hrun; cases hrun; simp at hok
+  · rw [h] at hrun; cases hrun
+    exact ⟨t, m, e, ns, text_of_splice _ _ _ _ _ _ hpre hl, hu, hK, hF⟩
+
+/-- **`cnl::to_chars` of a non-zero `scaled_integer`: the text denotes the value.**  For every rep type whose
+significand type is signed, every exponent, radix 2…10, buffer length and value: when the call succeeds, the
+characters `[first, p)`, read by the independent reader, are a decimal `±m·10^x'` with the sign of the value,
+`m·10^x' ≤ |rep|·radix^e`, and `|rep|·radix^e − m·10^x' < 10^x' + |rep|·radix^e · lossy·lossUnit/max`
+(`Dec.within`, the oracle's comparison); it is exactly the value when `descale` took no lossy division and one of
+the two complete notations fits the buffer -/
+theorem scaledToChars_denotes (T : IntTy) (e : Int) (radix len : Nat) (rep : Int)
+    (hS : (sigTy T).signed = true) (hr : (sigTy T).InRange rep) (hR2 : 2 ≤ radix) (hR : radix ≤ 10)
+    (hrep : rep ≠ 0) (r : TCR) (hrun : scaledToChars T e radix len rep = .ok r) (hok : r.ok = true) :
+    ∃ dsc d, descale (sigTy T) rep e radix = .ok dsc ∧ decimalValue r.text = some d ∧
+      d.neg = decide (rep < 0) ∧
+      d.within (exactFrac rep.natAbs radix e).1 (exactFrac rep.natAbs radix e).2
+        (dsc.lossy * lossUnit radix e) (sigTy T).max.toNat = true ∧
+      (dsc.lossy = 0 →
+        FullFits (infoOf len (if rep < 0 then 1 else 0) (natDigits 10 dsc.sig.natAbs).length dsc.exp) →
+        d.exactly (exactFrac rep.natAbs radix e).1 (exactFrac rep.natAbs radix e).2 = true) := by
+  have h8 := sigTy_bits T
+  by_cases hlen : len = 0
+  · subst hlen
+    simp [scaledToChars, scaledToCharsWith] at hrun
+    subst hrun; simp at hok
+  obtain ⟨dsc, hd, hsok⟩ := descale_ok (sigTy T) hS h8 rep e radix hR2 hR hr hrep
+  have hsign : (rep < 0 ↔ dsc.sig < 0) ∧ dsc.sig ≠ 0 := by
+    obtain ⟨_, _, h3⟩ := hsok
+    by_cases hn : rep < 0 <;> simp [hn] at h3 ⊢ <;> omega
+  obtain ⟨hv1, hv2⟩ := descale_value (sigTy T) hS h8 rep e radix hR2 hR hr hrep dsc hd
+  have hM : 0 < (sigTy T).max.toNat := by
+    have := max_ge_127 (sigTy T) hS h8; omega
+  have hden := exactFrac_den_pos rep.natAbs radix e (by omega)
+  have hpos : 0 < len := Nat.pos_of_ne_zero hlen
+  have h0 : 0 < dsc.sig.natAbs := Int.natAbs_pos.mpr hsign.2
+  -- both branches end the same way
+  have finish : ∀ (t : List Char) (m : Nat) (x' ns : Int) (first : Nat),
+      unsignedDecimal t = some (m, x') →
+      Kept dsc.sig.natAbs dsc.exp (natDigits 10 dsc.sig.natAbs).length ns m x' →
+      (FullFits (infoOf len first (natDigits 10 dsc.sig.natAbs).length dsc.exp) →
+        ns = (natDigits 10 dsc.sig.natAbs).length) →
+      first = (if rep < 0 then 1 else 0) →
+      ∀ neg : Bool,
+      (⟨neg, m, x'⟩ : Dec).within (exactFrac rep.natAbs radix e).1 (exactFrac rep.natAbs radix e).2
+        (dsc.lossy * lossUnit radix e) (sigTy T).max.toNat = true ∧
+      (dsc.lossy = 0 →
+        FullFits (infoOf len (if rep < 0 then 1 else 0) (natDigits 10 dsc.sig.natAbs).length dsc.exp) →
+        (⟨neg, m, x'⟩ : Dec).exactly (exactFrac rep.natAbs radix e).1 (exactFrac rep.natAbs radix e).2 = true) := by
+    intro t m x' ns first _ hK hF hfirst neg
+    refine ⟨kept_within neg _ _ _ _ _ _ hK _ _ _ _ hM hden hv1 hv2, ?_⟩
+    intro hl0 hff
+    rw [← hfirst] at hff
+    apply kept_exactly neg _ _ _ _ _ _ hK (hF hff)
+    rw [hl0] at hv2
+    simp only [Nat.zero_mul, Nat.mul_zero, Nat.add_zero] at hv2
+    have := Nat.le_of_mul_le_mul_right hv2 hM
+    omega
+  by_cases hmn : (sigTy T).signed = true ∧ dsc.sig < -(sigTy T).max
+  · unfold scaledToChars scaledToCharsWith at hrun
+    simp only [hlen, hrep, if_false, hd, hsign.2, hmn, and_self, if_true] at hrun
+    cases hrun
+  · unfold scaledToChars scaledToCharsWith at hrun
+    simp only [hlen, hrep, if_false, hd, hsign.2, hmn] at hrun
+    by_cases hn : dsc.sig < 0
+    · have hrn : rep < 0 := hsign.1.mpr hn
+      simp only [hn, if_true, Buf.write, Buf.fresh, hpos] at hrun
+      obtain ⟨t, m, x', ns, htx, hu, hK, hF⟩ :=
+        scaled_denotes_core 1 ['-'] ⟨len, (List.replicate len none).set 0 (some '-')⟩ r dsc.sig.natAbs h0 dsc.exp
+          (by simp; omega)
+          (by
+            cases len with
+            | zero => omega
+            | succ k => simp [List.replicate_succ])
+          rfl hrun hok
+      obtain ⟨g1, g2⟩ := finish t m x' ns 1 hu hK hF (by simp [hrn]) true
+      refine ⟨dsc, ⟨true, m, x'⟩, hd, ?_, by simp [hrn], g1, g2⟩
+      rw [htx]; exact decimalValue_neg t m x' hu
+    · have hrn : ¬ rep < 0 := fun h => hn (hsign.1.mp h)
+      simp only [hn, if_false] at hrun
+      obtain ⟨t, m, x', ns, htx, hu, hK, hF⟩ :=
+        scaled_denotes_core 0 [] (Buf.fresh len) r dsc.sig.natAbs h0 dsc.exp
+          (Nat.zero_le _) (by simp) rfl hrun hok
+      obtain ⟨g1, g2⟩ := finish t m x' ns 0 hu hK hF (by simp [hrn]) false
+      refine ⟨dsc, ⟨false, m, x'⟩, hd, ?_, by simp [hrn], g1, g2⟩
+      rw [htx]; exact decimalValue_pos t m x' hu
+
+/-! ### when `descale` is lossless -/
+
+/-- invariant of the lossless run of the binary negative-exponent loop: the value `a·5^ie` that the significand
+is heading for stays below `B` (for an even significand the pending halving is taken into account) -/
+def LosslessInv (B a ie : Nat) : Prop :=
+  ∀ i, ie = i + 1 → (if a % 2 = 0 then (a / 2) * 5 ^ i ≤ B else a * 5 ^ (i + 1) ≤ B)
+
+theorem losslessInv_init (a ie : Nat) : LosslessInv (a * 5 ^ ie) a ie := by
+  intro i hi
+  subst hi
+  split
+  · have h1 : a / 2 ≤ a := Nat.div_le_self _ _
+    have h2 := Nat.mul_le_mul_right (5 ^ i) h1
+    rw [Nat.pow_succ]
+    have : a * 5 ^ i ≤ a * (5 ^ i * 5) := Nat.mul_le_mul_left _ (Nat.le_mul_of_pos_right _ (by omega))
+    omega
+  · exact Nat.le_refl _
+
+theorem descaleNeg_lossless (S : IntTy) (hs : S.signed = true) (h8 : 8 ≤ S.bits) (neg : Bool) (B : Nat)
+    (hB : 10 * B ≤ S.max.toNat) :
+    ∀ fuel sig x ie k d, SigOK S neg sig → LosslessInv B sig.natAbs ie →
+      descaleNeg S neg 2 fuel sig x ie k = .ok d → d.lossy = k := by
+  have hM := max_ge_127 S hs h8
+  obtain ⟨hl0, hm0⟩ := sigOK_bounds S hs
+  intro fuel
+  induction fuel with
+  | zero => intro sig x ie k d _ _ h; simp [descaleNeg] at h
+  | succ n ih =>
+    intro sig x ie k d hok hinv h
+    cases ie with
+    | zero => simp only [descaleNeg] at h; cases h; rfl
+    | succ ie =>
+      have hI := hinv ie rfl
+      have hmod : (sig.tmod ((2 : Nat) : Int)).natAbs = sig.natAbs % 2 := natAbs_tmod_nat sig 2
+      have hdiv : (sig.tdiv ((2 : Nat) : Int)).natAbs = sig.natAbs / 2 := natAbs_tdiv_nat sig 2
+      by_cases hc : sig.tmod ((2 : Nat) : Int) ≠ 0 ∧ oobSig S neg sig = false
+      · obtain ⟨hin, hok'⟩ := step_mul10 S hs neg sig hok hc.2
+        simp only [descaleNeg, hc, and_self, if_true, ne_eq, not_false_eq_true, mulS_ok (by omega) hin] at h
+        apply ih _ _ _ _ _ hok' _ h
+        have hn : (sig * ((10 : Nat) : Int)).natAbs = sig.natAbs * 10 := by
+          rw [Int.natAbs_mul]; rfl
+        have hodd : ¬ sig.natAbs % 2 = 0 := by omega
+        rw [if_neg hodd] at hI
+        intro i hi
+        have : i = ie := by omega
+        subst this
+        rw [hn]
+        have e1 : sig.natAbs * 10 % 2 = 0 := by omega
+        have e2 : sig.natAbs * 10 / 2 = sig.natAbs * 5 := by omega
+        rw [if_pos e1, e2]
+        rw [Nat.pow_succ] at hI
+        grind
+      · have ht : sig.tmod ((2 : Nat) : Int) = 0 := by
+          by_cases ht : sig.tmod ((2 : Nat) : Int) = 0
+          · exact ht
+          · exfalso
+            have ho : oobSig S neg sig = true := by
+              cases hoo : oobSig S neg sig with
+              | true => rfl
+              | false => exact absurd ⟨ht, hoo⟩ hc
+            have hgt := oob_gt S neg sig hok ho
+            have hodd : ¬ sig.natAbs % 2 = 0 := by omega
+            rw [if_neg hodd] at hI
+            have : sig.natAbs * 1 ≤ sig.natAbs * 5 ^ (ie + 1) :=
+              Nat.mul_le_mul_left _ (Nat.pow_pos (by omega))
+            omega
+        simp only [descaleNeg, hc, if_false] at h
+        have hk : (if sig.tmod ((2 : Nat) : Int) ≠ 0 then k + 1 else k) = k := by
+          rw [if_neg (by omega)]
+        rw [hk] at h
+        have hok' := step_div S hl0 hm0 neg sig 2 (by omega) hok (Or.inl ht)
+        apply ih _ _ _ _ _ hok' _ h
+        have hev : sig.natAbs % 2 = 0 := by omega
+        rw [if_pos hev] at hI
+        intro i hi
+        subst hi
+        rw [hdiv]
+        rw [Nat.pow_succ] at hI
+        split
+        · have h1 : sig.natAbs / 2 / 2 ≤ sig.natAbs / 2 := Nat.div_le_self _ _
+          have h2 := Nat.mul_le_mul_right (5 ^ i) h1
+          have : sig.natAbs / 2 * 5 ^ i ≤ sig.natAbs / 2 * (5 ^ i * 5) :=
+            Nat.mul_le_mul_left _ (Nat.le_mul_of_pos_right _ (by omega))
+          omega
+        · rw [Nat.pow_succ]; exact hI
+
+/-- **no lossy division for short binary fractions**: for a negative exponent and input radix 2, when
+`|input|·5^|e|` — the significand of the exact expansion — is at most `max/10` (18 digits for `int64_t`),
+`descale` is lossless, so (`descale_value`) `s·10^x = |input|·2^e` exactly -/
+theorem descale_lossless_binary (S : IntTy) (hs : S.signed = true) (h8 : 8 ≤ S.bits) (input e : Int)
+    (hr : S.InRange input) (h0 : input ≠ 0) (he : e < 0)
+    (hB : 10 * (input.natAbs * 5 ^ e.natAbs) ≤ S.max.toNat) (d : Desc)
+    (hd : descale S input e 2 = .ok d) : d.lossy = 0 := by
+  unfold descale at hd
+  simp only [h0, if_false] at hd
+  rw [IntTy.wrap_id (by omega) hr] at hd
+  have hok : SigOK S (decide (input < 0)) input := by
+    refine ⟨hr.1, hr.2, ?_⟩
+    by_cases hn : input < 0 <;> simp [hn]; omega
+  simp only [he, if_true] at hd
+  exact descaleNeg_lossless S hs h8 _ _ hB _ _ _ _ _ d hok (losslessInv_init _ _) hd
+
+theorem descalePos_lossless (S : IntTy) (hs : S.signed = true) (h8 : 8 ≤ S.bits) (neg : Bool) (R : Nat)
+    (hR1 : 1 ≤ R) (hR : R ≤ 10) (B : Nat) (hB : 10 * B ≤ S.max.toNat) :
+    ∀ fuel sig x ie k d, SigOK S neg sig → sig.natAbs * R ^ ie ≤ B →
+      descalePos S neg R fuel sig x ie k = .ok d → d.lossy = k := by
+  have hM := max_ge_127 S hs h8
+  obtain ⟨hl0, hm0⟩ := sigOK_bounds S hs
+  intro fuel
+  induction fuel with
+  | zero => intro sig x ie k d _ _ h; simp [descalePos] at h
+  | succ n ih =>
+    intro sig x ie k d hok hinv h
+    have hno : oobSig S neg sig = false := by
+      cases hoo : oobSig S neg sig with
+      | false => rfl
+      | true =>
+        exfalso
+        have hgt := oob_gt S neg sig hok hoo
+        have : sig.natAbs * 1 ≤ sig.natAbs * R ^ ie := Nat.mul_le_mul_left _ (Nat.pow_pos (by omega))
+        omega
+    by_cases h1 : ie = 0 ∧ sig.tmod 10 ≠ 0
+    · simp only [descalePos, h1, and_self, if_true, ne_eq, not_false_eq_true] at h
+      cases h; rfl
+    · by_cases h2 : sig.tmod 10 = 0 ∨ oobSig S neg sig = true
+      · simp only [descalePos, h1, h2, if_false, if_true] at h
+        have ht : sig.tmod 10 = 0 := by
+          rcases h2 with h2 | h2
+          · exact h2
+          · rw [hno] at h2; cases h2
+        have hk : (if sig.tmod 10 ≠ 0 then k + 1 else k) = k := by rw [if_neg (by omega)]
+        rw [hk] at h
+        have hok' : SigOK S neg (sig.tdiv 10) :=
+          step_div S hl0 hm0 neg sig 10 (by omega) hok (Or.inl ht)
+        apply ih _ _ _ _ _ hok' _ h
+        have hdiv : (sig.tdiv ((10 : Nat) : Int)).natAbs = sig.natAbs / 10 := natAbs_tdiv_nat sig 10
+        have hdiv' : (sig.tdiv 10).natAbs = sig.natAbs / 10 := hdiv
+        rw [hdiv']
+        have := Nat.mul_le_mul_right (R ^ ie) (Nat.div_le_self sig.natAbs 10)
+        omega
+      · simp only [descalePos, h1, h2, if_false] at h
+        have htm : sig.tmod 10 ≠ 0 := fun h0 => h2 (Or.inl h0)
+        have hie : ie ≠ 0 := fun h0 => h1 ⟨h0, htm⟩
+        obtain ⟨hin, hok'⟩ := step_mulR S hs neg sig R hR1 hR hok hno
+        simp only [mulS_ok (by omega) hin] at h
+        cases ie with
+        | zero => exact absurd rfl hie
+        | succ i =>
+          simp only [Nat.add_sub_cancel] at h
+          apply ih _ _ _ _ _ hok' _ h
+          have hn : (sig * (R : Int)).natAbs = sig.natAbs * R := by
+            rw [Int.natAbs_mul]; rfl
+          rw [hn]
+          rw [Nat.pow_succ] at hinv
+          grind
+
+/-- **no lossy division for small integers**: for a non-negative exponent, when `|input|·R^e ≤ max/10`, `descale`
+is lossless -/
+theorem descale_lossless_small (S : IntTy) (hs : S.signed = true) (h8 : 8 ≤ S.bits) (input e : Int) (R : Nat)
+    (hR1 : 1 ≤ R) (hR : R ≤ 10) (hr : S.InRange input) (h0 : input ≠ 0) (he : 0 ≤ e)
+    (hB : 10 * (input.natAbs * R ^ e.natAbs) ≤ S.max.toNat) (d : Desc)
+    (hd : descale S input e R = .ok d) : d.lossy = 0 := by
+  unfold descale at hd
+  simp only [h0, if_false] at hd
+  rw [IntTy.wrap_id (by omega) hr] at hd
+  have hok : SigOK S (decide (input < 0)) input := by
+    refine ⟨hr.1, hr.2, ?_⟩
+    by_cases hn : input < 0 <;> simp [hn]; omega
+  have hn : ¬ e < 0 := by omega
+  simp only [hn, if_false] at hd
+  exact descalePos_lossless S hs h8 _ R hR1 hR _ hB _ _ _ _ _ d hok (Nat.le_refl _) hd
 
 end Cnl.Charconv
